@@ -105,6 +105,12 @@ class C09(XsProp):
         for w in UN_REAL:
             for a in (rg if w not in ('zero?', 'positive?', 'negative?', '>int') else rg_nonan):
                 cs.append(self.case([rcell(a)], w))
+        # >int around every power of two (a conversion that goes through a narrower integer type shows at its boundary)
+        for e_ in list(range(0, 130)):
+            for m_ in (2.0 ** e_, 2.0 ** e_ * 1.5, 2.0 ** e_ * (1 + 2.0 ** -52), 2.0 ** e_ * (2 - 2.0 ** -52)):
+                for sg_ in (1.0, -1.0):
+                    if rng.random() < (1.0 if thorough else 0.5):
+                        cs.append(self.case([rcell(struct.unpack('>Q', struct.pack('>d', sg_ * m_))[0])], '>int'))
         # >int near the i128 edges and halves for round
         for b in [0x47dfffffffffffff, 0x47e0000000000000, 0xc7e0000000000000, 0xc7e0000000000001, 0x43e0000000000000, 0x3fe0000000000000,
                   0xbfe0000000000000, 0x4004000000000000, 0x400c000000000000, 0x3fdfffffffffffff, 0x4330000000000001]:
@@ -225,6 +231,11 @@ class C09(XsProp):
                         q = Fraction(abs(a)) + Fraction(1, 2)
                         r = float(q.numerator // q.denominator)
                         want = ('ok', [rb(math.copysign(r, a))])
+                    elif w == '>int' and not math.isinf(a) and not math.isnan(a):
+                        # truncation toward zero, exact, saturated to the 128-bit range (`as` cast semantics)
+                        t = max(-(2 ** 127), min(2 ** 127 - 1, int(a)))
+                        want = ('ok', ['I' + hx(t)])
+                    elif w == '>real' : want = ('ok', [rb(a)])
                     elif w == 'neg': want = ('ok', [rb(-a)])
                     elif w == 'abs': want = ('ok', [rb(abs(a))])
                     elif w == 'zero?': want = ('ok', ['T' if a == 0.0 else 'F'])
